@@ -2,6 +2,8 @@
 
 package search
 
+import "diagonal.works/b6/verifrt"
+
 // Specification functions of the b6vc verifier (/verif) for the search iterators.
 // All four are uninterpreted in every proof (contract "opaque"); the bodies are unused.
 
@@ -25,4 +27,85 @@ func cmp3(a int, b int) Comparison {
 		return ComparisonGreater
 	}
 	return ComparisonEqual
+}
+
+// ---- C07: AVL tree list (bounded histories) ---------------------------------------------
+// Values are ints ordered as ints. Keys are symbolic; each lemma fixes how many
+// operations are performed, the solver enumerates the orderings.
+
+type vIntValues struct{}
+
+func (vIntValues) Compare(a Value, b Value) Comparison { return cmp3(a.(int), b.(int)) }
+func (vIntValues) CompareKey(v Value, k Key) Comparison { return cmp3(v.(int), k.(int)) }
+func (vIntValues) Key(v Value) Key                     { return v }
+
+// verifHelper_C07_inorder checks that iterating the list yields exactly n strictly
+// increasing values and that Len agrees.
+func verifHelper_C07_inorder(t *treeList, n int) {
+	verifrt.Assert(t.Validate(), "valid-avl-tree")
+	verifrt.Assert(t.Len() == n, "length")
+	it := t.Begin()
+	count := 0
+	last := 0
+	for it.Next() {
+		v := it.Value().(int)
+		verifrt.Assert(count == 0 || last < v, "strictly-increasing")
+		last = v
+		count++
+	}
+	verifrt.Assert(count == n, "iterates-every-value-once")
+}
+
+// Three keys in any order, then any one of them deleted.
+func verifLemma_C07_three_then_delete(a, b, c, d int) {
+	verifrt.Assume(a != b && b != c && a != c && (d == a || d == b || d == c))
+	t := newTreeList(vIntValues{})
+	t.Insert(a)
+	t.Insert(b)
+	t.Insert(c)
+	verifHelper_C07_inorder(t, 3)
+	t.DeleteKey(d)
+	verifHelper_C07_inorder(t, 2)
+	_, found := t.Lookup(d)
+	verifrt.Assert(!found, "deleted-value-is-gone")
+}
+
+// Delete the root while it has two children, then insert below the smallest.
+func verifLemma_C07_delete_two_child_root(a, b, c, d int) {
+	verifrt.Assume(d < a && a < b && b < c)
+	t := newTreeList(vIntValues{})
+	t.Insert(b)
+	t.Insert(a)
+	t.Insert(c)
+	t.DeleteKey(b)
+	verifHelper_C07_inorder(t, 2)
+	t.Insert(d)
+	verifHelper_C07_inorder(t, 3)
+}
+
+// Remove from the right of a left-heavy root whose left child is balanced (single
+// rotation on delete), then insert below the smallest.
+func verifLemma_C07_delete_needs_rotation(a, b, c, d, e, f int) {
+	verifrt.Assume(f < a && a < b && b < c && c < d && d < e)
+	t := newTreeList(vIntValues{})
+	t.Insert(d)
+	t.Insert(b)
+	t.Insert(e)
+	t.Insert(a)
+	t.Insert(c)
+	verifHelper_C07_inorder(t, 5)
+	t.DeleteKey(e)
+	verifHelper_C07_inorder(t, 4)
+	t.Insert(f)
+	verifHelper_C07_inorder(t, 5)
+}
+
+// Deleting a key that is not in the list changes nothing, Len included.
+func verifLemma_C07_delete_absent(a, b, k int) {
+	verifrt.Assume(a != b && k != a && k != b)
+	t := newTreeList(vIntValues{})
+	t.Insert(a)
+	t.Insert(b)
+	t.DeleteKey(k)
+	verifHelper_C07_inorder(t, 2)
 }
